@@ -429,7 +429,10 @@ func allUTF8(a adV) bool {
 	return ok
 }
 
-func doAd(c *vlib.Ctx, a adV, verbose bool) {
+func doAd(c *vlib.Ctx, a adV, verbose bool) { doAdE(c, a, verbose, true) }
+
+// emit = also write the Coq case (the direct oracles always run)
+func doAdE(c *vlib.Ctx, a adV, verbose bool, emit bool) {
 	a = a.norm()
 	c.Eval()
 	c.Count("ad")
@@ -450,7 +453,7 @@ func doAd(c *vlib.Ctx, a adV, verbose bool) {
 		if verbose {
 			fmt.Printf("ad %s: clause=%q %s block=%x\n", codec, clause, detail, block)
 		}
-		if codec == "cbor" && block != nil {
+		if codec == "cbor" && block != nil && emit {
 			c.Case("ad", fmt.Sprintf("(%s, %s)", a.coq(), vlib.CoqBytes(block)), rp)
 			sample(c, "ad", a.Prev != nil && a.Ext != nil && len(a.Ext.Provs) > 0 && len(a.Meta) < 4, a, hx(block))
 		}
@@ -498,7 +501,9 @@ func shrinkAd(a adV, codec, clause string) adV {
 	return a
 }
 
-func doChunk(c *vlib.Ctx, ch chV, verbose bool) {
+func doChunk(c *vlib.Ctx, ch chV, verbose bool) { doChunkE(c, ch, verbose, true) }
+
+func doChunkE(c *vlib.Ctx, ch chV, verbose bool, emit bool) {
 	ch = ch.norm()
 	c.Eval()
 	c.Count("chunk")
@@ -514,7 +519,7 @@ func doChunk(c *vlib.Ctx, ch chV, verbose bool) {
 		if verbose {
 			fmt.Printf("chunk %s: clause=%q %s block=%x\n", codec, clause, detail, block)
 		}
-		if codec == "cbor" && block != nil {
+		if codec == "cbor" && block != nil && emit {
 			c.Case("chunk", fmt.Sprintf("(%s, %s)", ch.coq(), vlib.CoqBytes(block)), rp)
 			sample(c, "chunk", ch.Next != nil && len(ch.Entries) == 3, ch, hx(block))
 		}
@@ -573,9 +578,12 @@ func runValues(c *vlib.Ctx) {
 					for _, meta := range []int{0, 1, schema.MaxMetadataLen} {
 						for _, rm := range []bool{false, true} {
 							k++
-							if meta == schema.MaxMetadataLen && !c.Thorough() && k%6 != 0 {
-								continue
-							}
+							// every combination goes through the real code and the direct oracles;
+							// the quick tier evaluates the Coq model on a third of them (each value of
+							// each dimension with each (previous, extended, addresses) choice) and on a
+							// few of the 1 KiB ones
+							ci, mi, ri := map[int]int{0: 0, 1: 1, schema.MaxContextIDLen: 2}[ctx], map[int]int{0: 0, 1: 1, schema.MaxMetadataLen: 2}[meta], map[bool]int{false: 0, true: 1}[rm]
+							emit := c.Thorough() || ((ci+mi+ri+na)%4 == 0 && (meta != schema.MaxMetadataLen || k%7 == 0))
 							a := adV{Provider: "12D3KooWCryG7Mon9orvQxcS1rYZjotPgpwoJNHHKcLLfE4Hf5mV", Addrs: sampleAddrs[:na], Sig: fill(64*(k%2), 3), Entries: entC,
 								Ctx: fill(ctx, 1), Meta: fill(meta, 2), IsRm: rm}
 							if prev {
@@ -584,7 +592,7 @@ func runValues(c *vlib.Ctx) {
 							if e.present {
 								a.Ext = extOf(e.n, e.override)
 							}
-							doAd(c, a, false)
+							doAdE(c, a, false, emit)
 						}
 					}
 				}
@@ -637,7 +645,7 @@ func runValues(c *vlib.Ctx) {
 				a.Ext.Provs = append(a.Ext.Provs, p)
 			}
 		}
-		doAd(c, a, false)
+		doAdE(c, a, false, c.Thorough() || i%3 == 0)
 	}
 	// chunks: 0..50 multihashes of mixed functions, with and without next
 	mhTypes := []uint64{multihash.SHA2_256, multihash.SHA2_512, multihash.SHA1, multihash.IDENTITY, multihash.SHA3_256, multihash.BLAKE2B_MIN + 31, multihash.DBL_SHA2_256, multihash.MD5}
@@ -655,7 +663,7 @@ func runValues(c *vlib.Ctx) {
 			if withNext {
 				ch.Next = next
 			}
-			doChunk(c, ch, false)
+			doChunkE(c, ch, false, c.Thorough() || n <= 3 || n == 8 || n == 21 || n == 50)
 		}
 	}
 	// entries that are not multihashes at all (the schema says Bytes)
